@@ -54,7 +54,6 @@ theorem tr_b (hl : ∀ s, (cfg.lower s).length = s.length) (n : Nat) (ih : Trans
   | unit => have := H.fb; unfold Ty.TF at this; exact absurd this id
   | data => have := H.fb; unfold Ty.TF at this; exact absurd this id
   | richData => have := H.fb; unfold Ty.TF at this; exact absurd this id
-  | tuple _ _ => have := H.fb; unfold Ty.TF at this; exact absurd this id
   | struct _ => have := H.fb; unfold Ty.TF at this; exact absurd this id
   | iterable _ => have := H.fb; unfold Ty.TF at this; exact absurd this id
   | optional ob =>
@@ -199,7 +198,6 @@ theorem trans_all (hl : ∀ s, (cfg.lower s).length = s.length) : ∀ n, Trans c
     | unit => have := H.fc; unfold Ty.TF at this; exact absurd this id
     | data => have := H.fc; unfold Ty.TF at this; exact absurd this id
     | richData => have := H.fc; unfold Ty.TF at this; exact absurd this id
-    | tuple _ _ => have := H.fc; unfold Ty.TF at this; exact absurd this id
     | struct _ => have := H.fc; unfold Ty.TF at this; exact absurd this id
     | iterable _ => have := H.fc; unfold Ty.TF at this; exact absurd this id
     | optional oc =>
